@@ -244,7 +244,7 @@ def cosim_one(args):
                 if r1 != (True, False):
                     out['problems'].append(('reopened-confirming', r1, 'chan%d' % i))
 
-    ctx = vrt.run_scenario(scenario, refbroker.factory(policy), seed=seed, p_preempt=0.12, p_jump=0.1,
+    ctx = vrt.run_scenario(scenario, refbroker.factory(policy), seed=seed, p_stall=(0.4 if seed % 4 == 2 else 0.0), p_preempt=0.12, p_jump=0.1,
                            fair_time=(seed % 2 == 1), repo_path=str(common.REPO))
     out['abort'] = ctx.sched.abort_reason
     out['preemptions'] = ctx.sched.preemptions
